@@ -293,7 +293,12 @@ func init() {
 	reg("os.Getenv", func(fr *frame, a []value) value { return "" })
 	reg("os.LookupEnv", func(fr *frame, a []value) value { return tuple{"", false} })
 	reg("os.Exit", func(fr *frame, a []value) value {
-		fr.i.path.events = append(fr.i.path.events, fmt.Sprintf("exit(%v)", a[0]))
+		i := fr.i
+		i.path.events = append(i.path.events, fmt.Sprintf("exit(%v)", a[0]))
+		if !i.expectExit {
+			// an exit the harness did not announce is reported like a panic
+			i.reportPanic(targetPanic{msg: fmt.Sprintf("unexpected os.Exit(%v) at %s", a[0], i.posOf(fr.caller.curInstr))})
+		}
 		panic(pathEnd{reason: "exit", detail: fmt.Sprint(a[0])})
 	})
 	reg("github.com/git-lfs/git-lfs/v3/tools.Indent", func(fr *frame, a []value) value {
